@@ -394,6 +394,83 @@ pub fn run(rep: &mut Rep) {
             }
         }
     }
+    // ---- a second, encoding-level fault in a map that ALSO lacks required parameters.  MissingParameter
+    //      is reserved for an *otherwise well-formed* map: a truncated, non-canonical, indefinite-length
+    //      or duplicate-key map stays InvalidCbor however few members it announces (down to the
+    //      headers A0..A3).  Value-level second faults (wrong type, over capacity) are not asserted here.
+    for (cmd, name, s) in &cmds {
+        let Some(ms) = as_map_schema(s) else { continue };
+        let n = rep.n(24, 1200);
+        for i in 0..n * rep.nshards {
+            case += 1;
+            if !rep.mine(case) {
+                continue;
+            }
+            let mut rng = Rng::derive(seed, "c05-double", case);
+            let mut g = G::new(&mut rng);
+            match i % 3 {
+                0 => {
+                    g.top_mask = Some(0);
+                    g.nested = Nested::OnlyRequired;
+                }
+                1 => g.nested = Nested::Random,
+                _ => {
+                    g.top_mask = Some(u64::MAX);
+                    g.nested = Nested::All;
+                }
+            }
+            g.small = true;
+            let mut v = gen_message(s, &mut g);
+            // remove a non-empty subset of the required top-level parameters (i % 4 == 0: all of them)
+            let mut removed = 0;
+            if let V::M(e) = &mut v {
+                let req: Vec<V> = e.iter().filter(|(k, _)| member_of(ms, k).map(|m| m.required).unwrap_or(false)).map(|(k, _)| k.clone()).collect();
+                if req.is_empty() {
+                    continue;
+                }
+                let forced = rng.usize(req.len());
+                for (j, k) in req.iter().enumerate() {
+                    if i % 4 == 0 || j == forced || rng.bool() {
+                        e.retain(|(k2, _)| k2 != k);
+                        removed += 1;
+                    }
+                }
+                // and, half of the time, the optional ones too: very short maps
+                if i % 2 == 0 {
+                    e.retain(|(k, _)| member_of(ms, k).map(|m| m.required).unwrap_or(true) || rng.bool());
+                }
+            }
+            if removed == 0 {
+                continue;
+            }
+            if rep.begin(&format!("{}/remove-required-several", name)) {
+                let f = Fault { kind: "remove-required-several", member: format!("{} required parameters", removed), expect: 0x14, bytes: msg(*cmd, &v) };
+                judge_fault(rep, name, &f);
+            }
+            let mut fs = Vec::new();
+            faults(*cmd, s, &v, &mut rng, &mut fs);
+            let whole_len = msg(*cmd, &v).len();
+            let step = if rep.light { 12 } else { 1 };
+            for (j, f) in fs.iter().enumerate() {
+                if j % step != 0 {
+                    continue;
+                }
+                let kind: &'static str = match f.kind {
+                    "truncate" if f.bytes.len() < whole_len => "missing-required+truncate",
+                    "duplicate-key" | "duplicate-key-alias" => "missing-required+duplicate-key",
+                    "non-minimal-key" | "non-minimal-head" => "missing-required+non-minimal",
+                    "reserved-additional-info" => "missing-required+reserved-additional-info",
+                    "indefinite-length" => "missing-required+indefinite-length",
+                    "ill-formed-utf8" => "missing-required+ill-formed-utf8",
+                    _ => continue,
+                };
+                if rep.begin(&format!("{}/{}", name, kind)) {
+                    let f2 = Fault { kind, member: f.member.clone(), expect: 0x12, bytes: f.bytes.clone() };
+                    judge_fault(rep, name, &f2);
+                }
+            }
+        }
+    }
     // ---- malformed CBOR inside the value of an UNKNOWN member (the generic skipper's error paths):
     //      reserved additional information on any head and indefinite-length strings/containers
     //      are malformed wherever they occur.  (Non-minimal heads inside unknown values are not
